@@ -49,14 +49,17 @@ def coded_image(N):
 def block_origin(image):
     """global index of local index 0 of a block of the coded image (negative inside a replicated boundary)"""
     c = np.rint(np.asarray(image, dtype=np.float64)).astype(np.int64)
-    gl = [c[:, 0, 0] % 100, (c[0, :, 0] // 100) % 100, c[0, 0, :] // 10000]
+    # lines through the centre voxel of the block: the centre is never inside a padded margin (constant padding carries no position code)
+    m = [s // 2 for s in c.shape]
+    gl = [c[:, m[1], m[2]] % 100, (c[m[0], :, m[2]] // 100) % 100, c[m[0], m[1], :] // 10000]
     org = []
     for v in gl:
         j = [k for k in range(len(v) - 1) if v[k + 1] == v[k] + 1]
         if j:
             org.append(int(v[j[0]] - j[0]))
-        else:  # a one-voxel axis replicated on both sides
-            org.append(int(v[0]) - (len(v) - 1) // 2)
+        else:  # a one-voxel axis padded on both sides
+            mid = (len(v) - 1) // 2
+            org.append(int(v[mid]) - mid)
     return org
 
 
@@ -123,7 +126,7 @@ class Detector:
 # replay on the installed library: Gaussian blobs, numpy vs chunked dask
 
 
-def replay_chunks(kind, N, chunks, sigma=1.0):
+def replay_chunks(kind, N, chunks, sigma=1.0, boundary=None):
     """numpy vs chunked dask on the installed library: (a) point particles on the very image size / chunking / scale of the counterexample
     (single-chunk axes enlarged to 16), (b) Gaussian blobs on a 4x enlarged copy"""
 
@@ -132,6 +135,7 @@ def replay_chunks(kind, N, chunks, sigma=1.0):
         from acryo.pick import LoGPicker, DoGPicker
 
         scale = fl(cex.get("scale")) or 1.0
+        bkw = {} if boundary is None else {"boundary": boundary}
         gs = []
         for j in range(4):
             if f"p{j}_g0" in cex or j == 0:
@@ -160,7 +164,7 @@ def replay_chunks(kind, N, chunks, sigma=1.0):
         planted = np.array(sorted(planted))
         pk = LoGPicker(sigma=sigma) if kind == "log" else DoGPicker(sigma_low=sigma, sigma_high=1.5 * sigma)
         try:
-            ref, got = key(pk.pick_molecules(img, scale=scale)), key(pk.pick_molecules(da.from_array(img, chunks=tuple(chs)), scale=scale))
+            ref, got = key(pk.pick_molecules(img, scale=scale, **bkw)), key(pk.pick_molecules(da.from_array(img, chunks=tuple(chs)), scale=scale, **bkw))
             same = ref.shape == got.shape and (ref.size == 0 or np.abs(ref - got).max() < 0.5 * scale)
             # a point particle away from the image border is picked at its own position (numpy and dask alike)
             if len(gs) == 1 and same and ref.shape == planted.shape and np.abs(ref - planted).max() >= 0.5 * scale:
@@ -178,7 +182,7 @@ def replay_chunks(kind, N, chunks, sigma=1.0):
             img[tuple(int(min(max(round(v), 3), n - 4)) if len(ch) > 1 else 16 for v, n, ch in zip(g, N, chunks))] = 1.0
         pk = LoGPicker(sigma=3.0 * scale) if kind == "log" else DoGPicker(sigma_low=3.0 * scale, sigma_high=4.5 * scale)
         try:
-            ref, got = key(pk.pick_molecules(img, scale=scale)), key(pk.pick_molecules(da.from_array(img, chunks=tuple(chs2)), scale=scale))
+            ref, got = key(pk.pick_molecules(img, scale=scale, **bkw)), key(pk.pick_molecules(da.from_array(img, chunks=tuple(chs2)), scale=scale, **bkw))
             same = ref.shape == got.shape and (ref.size == 0 or np.abs(ref - got).max() < 0.5 * scale)
             out["wide_filter"] = {"image": shape2, "chunks": [list(c) for c in chs2], "numpy_picks": ref.round(2).tolist()[:4], "dask_picks": got.round(2).tolist()[:6]}
         except Exception as e:
@@ -197,7 +201,7 @@ def replay_chunks(kind, N, chunks, sigma=1.0):
         bch = tuple(tuple(int(round(x * fa)) for x in ch[:-1]) for ch, fa in zip(chunks, f))
         bch = tuple(c + (b - sum(c),) for c, b in zip(bch, big))
         try:
-            ref, got = key(pk.pick_molecules(img, scale=scale)), key(pk.pick_molecules(da.from_array(img, chunks=bch), scale=scale))
+            ref, got = key(pk.pick_molecules(img, scale=scale, **bkw)), key(pk.pick_molecules(da.from_array(img, chunks=bch), scale=scale, **bkw))
             same = ref.shape == got.shape and (ref.size == 0 or np.abs(ref - got).max() < 1.0 * scale)
             out["enlarged"] = {"image": list(big), "chunks": [list(c) for c in bch], "numpy_picks": ref.round(2).tolist()[:4], "dask_picks": got.round(2).tolist()[:6]}
         except Exception as e:
@@ -220,7 +224,7 @@ def _norm_chunks(chunks, N):
     return tuple(out)
 
 
-def sec_chunks(rec, kind="log", N=(12, 6, 5), chunks=((6, 6), (6,), (5,)), n_particles=1, spurious=1, scale_range=(Fraction(3, 5), Fraction(3, 2)), sigma=1.0, may=True, patches=None):
+def sec_chunks(rec, kind="log", N=(12, 6, 5), chunks=((6, 6), (6,), (5,)), n_particles=1, spurious=1, scale_range=(Fraction(3, 5), Fraction(3, 2)), sigma=1.0, may=True, boundary=None, patches=None):
     import dask.array as da
 
     L = _load(patches)
@@ -240,8 +244,8 @@ def sec_chunks(rec, kind="log", N=(12, 6, 5), chunks=((6, 6), (6,), (5,)), n_par
         sep = 3 * sigma / scale_range[0] + 1
         hyps.append(z3.Or(*[z3.Or(g1[a].e - g2[a].e >= sep, g2[a].e - g1[a].e >= sep) for a in range(3)]))
     names = {"scale"} | {f"p{j}_g{a}" for j in range(n_particles) for a in range(3)}
-    tag = f"chunks[{kind},N={N},chunks={chunks},P={n_particles}]"
-    rp = replay_chunks(kind, N, _norm_chunks(chunks, N))
+    tag = f"chunks[{kind},N={N},chunks={chunks},P={n_particles}" + (f",boundary={boundary!r}" if boundary is not None else "") + "]"
+    rp = replay_chunks(kind, N, _norm_chunks(chunks, N), boundary=boundary)
     det = Detector(P, (lambda kw: kw["sigma"]) if kind == "log" else (lambda kw: kw["sigma_low"]), spurious=spurious, may=may)
     cls = PC.LoGPicker if kind == "log" else PC.DoGPicker
     cls.pick_in_chunk = lambda self, image, **kw: det(self, image, **kw)
@@ -249,7 +253,7 @@ def sec_chunks(rec, kind="log", N=(12, 6, 5), chunks=((6, 6), (6,), (5,)), n_par
     def run():
         pk = cls(sigma) if kind == "log" else cls(sigma, 1.5 * sigma)
         x = DaskProxy(da.from_array(img, chunks=chunks))
-        return pk.pick_molecules(x, scale)
+        return pk.pick_molecules(x, scale) if boundary is None else pk.pick_molecules(x, scale, boundary=boundary)
 
     paths = explore(run, assumptions=hyps, max_paths=4000)
     n_ok = 0
@@ -635,6 +639,12 @@ def sections(tier):
         if sum(1 for c in chunks if len(c) > 1) > 1:  # several chunked axes: paths multiply -- fixed scale, detector without optional reports
             kw.update({"scale_range": (1, 1), "may": False, "spurious": 0})
         secs.append((f"chunks-{i}-{kind}", "checks.c20", "sec_chunks", kw))
+    # other boundary modes of map_overlap: constant padding (0 is falsy!), reflection, one mode per axis
+    bnd = [("const0", 0), ("reflect", "reflect"), ("per-axis", {0: 0, 1: "nearest", 2: "reflect"})]
+    if not q:
+        bnd += [("const0.0-tuple", (0.0, "nearest", 0.0)), ("const7", 7.0)]
+    for name, b in bnd:
+        secs.append((f"chunks-boundary-{name}", "checks.c20", "sec_chunks", {"kind": "log", "N": (12, 6, 5), "chunks": ((6, 6), (6,), (5,)), "n_particles": 1, "spurious": 1, "boundary": b}))
     return secs
 
 
@@ -647,6 +657,8 @@ MUTANTS = [
     ("unclipped-depth-subtracted (same fix)", "checks.c20", "sec_chunks", _THIN,
      {_PB: [("        depth = np.minimum(np.asarray(depth), image.shape).astype(np.asarray(depth).dtype)\n        _depth = tuple(int(d) for d in depth)",
              "        _depth = tuple(int(min(s, d)) for s, d in zip(image.shape, depth))\n        depth = np.asarray(depth)")]}),
+    ("falsy-constant-boundary-taken-for-no-padding (seeded change C20_5)", "checks.c20", "sec_chunks", {**_CH0, "boundary": 0},
+     {_PB: [("    return boundary is not None and boundary != \"none\"\n", "    if not boundary:\n        return False\n    return boundary != \"none\"\n")]}),
     ("owned-interval-closed-on-both-sides", "checks.c20", "sec_chunks", _CH0, {_PB: [("(local < (stop - start) - 0.5)", "(local <= (stop - start) - 0.5)")]}),
     ("owned-interval-open-on-both-sides", "checks.c20", "sec_chunks", _CH0, {_PB: [("(local >= -0.5)", "(local > -0.5)")]}),
     ("chunk-start-not-added", "checks.c20", "sec_chunks", _CH0, {_PB: [("pos[:, i] = local + (start + _depth[i])", "pos[:, i] = local + _depth[i]")]}),
@@ -679,4 +691,22 @@ def run(tier, procs=None, only=None):
 
 
 def replay(data):
-    return replay_chunks("log", (12, 6, 5), ((6, 6), (6,), (5,)))(data.get("cex") or {})
+    import ast
+    import re
+
+    label = data.get("label", "")
+    kind = "dog" if "[dog" in label else "log"
+    b = None
+    m = re.search(r",boundary=(.*?)\]/", label)
+    if m:
+        try:
+            b = ast.literal_eval(m.group(1))
+        except Exception:
+            b = None
+    if "tm" in data.get("key", "") or "template" in label:
+        ok, detail = replay_template({})
+    else:
+        ok, detail = replay_chunks(kind, (12, 6, 5), ((6, 6), (6,), (5,)), boundary=b)(data.get("cex") or {})
+    print("replay:", detail)
+    print("REPRODUCED" if ok else "not reproduced")
+    return 1 if ok else 0
